@@ -11,6 +11,7 @@ use std::time::Instant;
 
 mod pairs;
 mod w0;
+mod w64;
 
 #[global_allocator]
 static GLOBAL: arena::Arena = arena::Arena;
@@ -176,6 +177,25 @@ pub fn alpha(name: &str) -> Alpha {
         } else {
             Outcome::State { hash: o.hash, class: None, allocs: o.allocs }
         }
+    }
+    if name == "w64" {
+        let ops = w64::alphabet0();
+        let ops2 = ops.clone();
+        return Alpha {
+            n: ops.len(),
+            kinds: ops.iter().map(|o| o.kind()).collect(),
+            names: ops.iter().map(|o| format!("{:?}", o)).collect(),
+            run: Box::new(move |hist, props, _verbose| {
+                let o = w64::run_one(&ops2, hist, props);
+                if o.disabled {
+                    Outcome::Disabled
+                } else if !o.fails.is_empty() {
+                    Outcome::Violation(o.fails)
+                } else {
+                    Outcome::State { hash: o.hash, class: None, allocs: o.allocs }
+                }
+            }),
+        };
     }
     if name == "w0" {
         let ops = w0::alphabet0();
@@ -361,33 +381,33 @@ fn default_configs(prop: Prop, tier: &str) -> Vec<(&'static str, usize)> {
     let q = tier == "quick";
     match prop {
         Prop::C01 => {
-            if q { vec![("shape", 7), ("alloc", 8), ("copy", 7), ("all", 3), ("zbig", 6), ("w8", 5), ("w9", 5), ("w10", 5), ("w0", 5)] } else { vec![("shape", 8), ("alloc", 10), ("copy", 8), ("all", 4), ("zbig", 7), ("w8", 7), ("w9", 7), ("w10", 7), ("w0", 7), ("copy@3", 6), ("shape@5", 6)] }
+            if q { vec![("shape", 7), ("alloc", 8), ("copy", 7), ("all", 3), ("zbig", 6), ("w8", 5), ("w9", 5), ("w10", 5), ("w0", 5), ("w64", 4)] } else { vec![("shape", 8), ("alloc", 10), ("copy", 8), ("all", 4), ("zbig", 7), ("w8", 7), ("w9", 7), ("w10", 7), ("w0", 7), ("w64", 6), ("copy@3", 6), ("shape@5", 6)] }
         }
         Prop::C02 => {
-            if q { vec![("alloc", 8), ("stale", 7), ("copy", 7), ("shape", 6), ("all", 3), ("w8", 5), ("w9", 5), ("w10", 5), ("w0", 5)] } else { vec![("alloc", 10), ("stale", 8), ("copy", 8), ("shape", 7), ("all", 4), ("w8", 7), ("w9", 7), ("w10", 7), ("w0", 7)] }
+            if q { vec![("alloc", 8), ("stale", 7), ("copy", 7), ("shape", 6), ("all", 3), ("w8", 5), ("w9", 5), ("w10", 5), ("w0", 5), ("w64", 4)] } else { vec![("alloc", 10), ("stale", 8), ("copy", 8), ("shape", 7), ("all", 4), ("w8", 7), ("w9", 7), ("w10", 7), ("w0", 7), ("w64", 6)] }
         }
         Prop::C04 => {
-            if q { vec![("shape", 7), ("copy", 7), ("all", 3), ("zbig", 7), ("w8", 5), ("w9", 5), ("w10", 5), ("w0", 5), ("zbig@1", 6)] } else { vec![("shape", 8), ("copy", 8), ("all", 4), ("zbig", 8), ("alloc", 8), ("w8", 7), ("w9", 7), ("w10", 7), ("w0", 7), ("zbig@1", 7), ("copy@1", 7)] }
+            if q { vec![("shape", 7), ("copy", 7), ("all", 3), ("zbig", 7), ("w8", 5), ("w9", 5), ("w10", 5), ("w0", 5), ("w64", 4), ("zbig@1", 6)] } else { vec![("shape", 8), ("copy", 8), ("all", 4), ("zbig", 8), ("alloc", 8), ("w8", 7), ("w9", 7), ("w10", 7), ("w0", 7), ("w64", 6), ("zbig@1", 7), ("copy@1", 7)] }
         }
         Prop::C05 => {
             // odd address salts run the checking allocator in grow-in-place mode (a growing realloc keeps the pointer)
-            if q { vec![("zbig", 7), ("shape", 7), ("copy", 7), ("alloc", 7), ("all", 3), ("w8", 5), ("w9", 5), ("w10", 5), ("w0", 5), ("zbig@1", 6), ("copy@1", 5)] } else { vec![("zbig", 8), ("shape", 8), ("copy", 8), ("alloc", 9), ("all", 4), ("w8", 7), ("w9", 7), ("w10", 7), ("w0", 7), ("zbig@1", 7), ("copy@1", 7), ("shape@1", 6)] }
+            if q { vec![("zbig", 7), ("shape", 7), ("copy", 7), ("alloc", 7), ("all", 3), ("w8", 5), ("w9", 5), ("w10", 5), ("w0", 5), ("w64", 4), ("zbig@1", 6), ("copy@1", 5)] } else { vec![("zbig", 8), ("shape", 8), ("copy", 8), ("alloc", 9), ("all", 4), ("w8", 7), ("w9", 7), ("w10", 7), ("w0", 7), ("w64", 6), ("zbig@1", 7), ("copy@1", 7), ("shape@1", 6)] }
         }
         Prop::C13 => {
-            if q { vec![("alloc", 8), ("shape", 7), ("copy", 7), ("stale", 6), ("all", 3), ("zbig", 6), ("w8", 5), ("w9", 5), ("w10", 5), ("w0", 5)] } else { vec![("alloc", 10), ("shape", 8), ("copy", 8), ("stale", 8), ("all", 4), ("zbig", 7), ("w8", 7), ("w9", 7), ("w10", 7), ("w0", 7), ("copy@3", 6), ("all@9", 3)] }
+            if q { vec![("alloc", 8), ("shape", 7), ("copy", 7), ("stale", 6), ("all", 3), ("zbig", 6), ("w8", 5), ("w9", 5), ("w10", 5), ("w0", 5), ("w64", 4)] } else { vec![("alloc", 10), ("shape", 8), ("copy", 8), ("stale", 8), ("all", 4), ("zbig", 7), ("w8", 7), ("w9", 7), ("w10", 7), ("w0", 7), ("w64", 6), ("copy@3", 6), ("all@9", 3)] }
         }
         Prop::C15 => {
             if q { vec![("res", 9), ("all", 3), ("copy", 6)] } else { vec![("res", 11), ("all", 4), ("copy", 7)] }
         }
         Prop::C06 => {
-            if q { vec![("twin", 7), ("copy", 7), ("alloc", 8), ("w8", 5), ("w9", 5), ("w10", 5), ("w0", 5)] } else { vec![("twin", 8), ("copy", 8), ("alloc", 10), ("all", 4), ("w8", 7), ("w9", 7), ("w10", 7), ("w0", 7), ("twin@3", 6), ("copy@7", 6)] }
+            if q { vec![("twin", 7), ("copy", 7), ("alloc", 8), ("w8", 5), ("w9", 5), ("w10", 5), ("w0", 5), ("w64", 4)] } else { vec![("twin", 8), ("copy", 8), ("alloc", 10), ("all", 4), ("w8", 7), ("w9", 7), ("w10", 7), ("w0", 7), ("w64", 6), ("twin@3", 6), ("copy@7", 6)] }
         }
         Prop::C10 => {
             if q { vec![("ctwin", 7), ("copy", 7), ("all", 3)] } else { vec![("ctwin", 8), ("copy", 8), ("all", 4), ("ctwin@3", 6), ("copy@5", 6)] }
         }
         Prop::C16 => vec![("copy", 3)],
         // the wide-registry harnesses only: queries and filters over component positions at and beyond the first byte boundary
-        Prop::C03 => if q { vec![("w8", 4), ("w9", 4), ("w10", 4)] } else { vec![("w8", 6), ("w9", 6), ("w10", 6)] },
+        Prop::C03 => if q { vec![("w8", 4), ("w9", 4), ("w10", 4), ("w64", 4)] } else { vec![("w8", 6), ("w9", 6), ("w10", 6), ("w64", 6)] },
     }
 }
 
